@@ -37,6 +37,11 @@ def halfword(rng):
 
 def shard(ctx):
     rng, P = ctx.rng, ctx.params
+    from .. import faults, seeds
+    fr = __import__("random").Random("c14-failing-%d-%d" % (ctx.seed, ctx.index))
+    badm = [ctx.write("failing-%d.mtrl" % i, d) for i, d in enumerate(x for _, data, _ in seeds.seeds_mtrl(fr)[:3] for x in faults.damaged_variants(fr, data, 3))]
+    bads = [ctx.write("failing-%d.shpk" % i, d) for i, d in enumerate(x for _, data, _ in seeds.seeds_shpk(fr)[:2] for x in faults.damaged_variants(fr, data, 3))]
+    ctx.failing_calls_first([("mtrl.parse", (b,)) for b in badm] + [("shpk.parse", (b,)) for b in bads], before=("mtrl.parse", "shpk.parse", "shpk.find_node"))
     for _ in range(P["n"]):
         mtrl_case(ctx, rng)
         shpk_case(ctx, rng)
